@@ -3,7 +3,9 @@
 const char *prop_id = "C15";
 static const struct { const char *op; int shape; } MENU[] = {
   {"mzd_mul", 8}, {"mzd_mul_m4rm", 3}, {"mzd_mul_naive", 1}, {"mzd_echelonize_m4ri", 6}, {"mzd_ple", 3}, {"mzd_pluq", 2}, {"mzd_solve_left", 1},
-  {"mzd_kernel_left_pluq", 2}, {"mzd_transpose(NULL)", 4}, {"mzd_trsm_upper_left", 4}, {"mzd_inv_m4ri(NULL)", 3}, {"mzd_addmul", 4}, {"mzd_apply_p_right", 4}, {"mzd_echelonize_pluq", 7}};
+  {"mzd_kernel_left_pluq", 2}, {"mzd_transpose(NULL)", 4}, {"mzd_trsm_upper_left", 4}, {"mzd_inv_m4ri(NULL)", 3}, {"mzd_addmul", 4}, {"mzd_apply_p_right", 4}, {"mzd_echelonize_pluq", 7},
+  /* second block: the solver entry points on a WIDE system (padding rows exist), the factor-then-solve route, and the remaining families */
+  {"mzd_solve_left", 2}, {"mzd_pluq+mzd_pluq_solve_left", 2}, {"mzd_pluq+mzd_pluq_solve_left", 3}, {"mzd_trtri_upper", 4}, {"mzd_invert_naive(NULL)", 2}, {"mzd_echelonize", 8}, {"mzd_trsm_lower_right", 4}, {"mzd_top_echelonize_m4ri", 3}};
 #define NMENU (int)(sizeof(MENU) / sizeof(MENU[0]))
 typedef struct { int nthreads; int ops[16]; int burst; } scen_t;
 static scen_t SC[4096]; static int nsc = 0, cur = 0; static char NAME[200];
